@@ -21,7 +21,11 @@ Inductive c11_case :=
 (* several chains in flight through ONE client; [sched] = the order in which the harness let the
    responses (hence the CheckRedirect evaluations) happen; one observation per chain *)
 | ConcCase (ps : list policy) (chains : list (bytes * hdrs * list bytes)) (sched : list nat)
-           (obs : list (list (bytes * hdrs) * bool)).
+           (obs : list (list (bytes * hdrs) * bool))
+(* one operation in which the client issues several requests for one named URL (retry attempts;
+   HEAD + segments of a parallel download); one observation per request made *)
+| ReissueCase (ps : list policy) (init : bytes) (hs : hdrs) (scripts : list (list bytes))
+              (obs : list (list (bytes * hdrs) * bool)).
 
 (* Host header as net/http writes it: an empty port is dropped ("h:" -> "h") *)
 Definition drop_empty_port (h : bytes) : bytes :=
@@ -61,4 +65,5 @@ Definition c11_check (c : c11_case) : bool :=
                            | (_, None) => false      (* the harness plays every chain to its end *)
                            end)
                (run_sched ps sched (map (fun c => chain_start (fst (fst c)) (snd (fst c)) (snd c)) chains)) obs
+  | ReissueCase ps init hs scripts obs => list_eqb outcome_eqb (reissue ps init hs scripts) obs
   end.
